@@ -962,3 +962,8 @@ _add_family(globals(), _sl, 'schemaleak', lambda case, impl: _sl.oracle(case, im
 # several ports on one node, falsy updates among them
 from harness import falsymulti as _fm                   # noqa: E402
 _add_family(globals(), _fm, 'falsymulti', _fm.oracle, share=0.04)
+
+
+# a default that is a list of quantities gives the variable its units, whatever the length of the list
+from harness import listunits as _lu                    # noqa: E402
+_add_family(globals(), _lu, 'listunits', _lu.oracle, share=0.02)
